@@ -41,5 +41,7 @@ SEEDED = [
     ("C11-11", "C11-OWN"),
     ("C11-12", "C11-OWN"),
     ("C11-13", "C11-ORDER"),
+    ("C11-14", "C11-PRED"),
+    ("C11-15", "C11-OWN"),
 ]
 MUTANTS = list(MUTANTS) + [_P("seed-" + sid, _os.path.join(_SEEDS, sid, "patch.diff"), rule) for sid, rule in SEEDED if _os.path.exists(_os.path.join(_SEEDS, sid, "patch.diff"))]
